@@ -118,6 +118,14 @@ func (pm *PolyformMaterial) equal(other *PolyformMaterial) bool {
 		return false
 	}
 
+	if !pm.NormalTexture.equal(other.NormalTexture) {
+		return false
+	}
+
+	if !pm.OcclusionTexture.equal(other.OcclusionTexture) {
+		return false
+	}
+
 	if (pm.AlphaMode == nil) != (other.AlphaMode == nil) {
 		return false
 	} else if pm.AlphaMode != nil && other.AlphaMode != nil && *pm.AlphaMode != *other.AlphaMode {
@@ -180,6 +188,22 @@ func (pt *PolyformNormal) equal(other *PolyformNormal) bool {
 		return false
 	}
 	return float64PtrsEqual(pt.Scale, other.Scale)
+}
+
+func (pt *PolyformOcclusion) equal(other *PolyformOcclusion) bool {
+	if pt == other {
+		return true
+	}
+
+	if pt == nil || other == nil {
+		return false
+	}
+
+	if !pt.PolyformTexture.equal(other.PolyformTexture) {
+		return false
+	}
+
+	return float64PtrsEqual(pt.Strength, other.Strength)
 }
 
 func (pmr *PolyformPbrMetallicRoughness) equal(other *PolyformPbrMetallicRoughness) bool {
